@@ -30,3 +30,58 @@ package common
 //@   # (position i), or the filtered list holds it at position kept(i)
 //@   ensures [nodeWithGpuCapacityKept] forall i int :: 0 <= i && i < len(allNodes) && hasGpuCapacity(allNodes[i]) ==> (i < len(result) && result[i] == allNodes[i]) || (0 <= kept(i) && kept(i) < len(result) && result[kept(i)] == allNodes[i])
 //@ end
+
+// ================================================================================================
+// The allocate path (allocate.go). C01 / C03 / C04.
+// ================================================================================================
+//@ import pod_status "github.com/NVIDIA/KAI-scheduler/pkg/scheduler/api/pod_status"
+
+// C01: "Capacity held by pods that are only terminating ... is never handed to a bind": fitsIdle is the
+// [top] post-predicate of node_info.(*NodeInfo).IsTaskAllocatable on the CURRENT heap - the request
+// fits ni.Idle (not Idle+Releasing), or the task requests nothing.
+//@ define fitsIdle(node *node_info.NodeInfo, task *pod_info.PodInfo) bool = node_info.bestEffort(task) || node_info.fitsAmount(node, task, node.Idle)
+//@ define sharedReq(task *pod_info.PodInfo) bool = task.ResourceRequestType == "Fraction" || task.ResourceRequestType == "GpuMemory"
+// what stmt.Allocate / stmt.Pipeline need (helper preconditions, from the framework contracts)
+//@ define placeReady(ssn *framework.Session, stmt *framework.Statement, task *pod_info.PodInfo, node *node_info.NodeInfo) bool = ssn != nil && framework.stmtOK(stmt) && framework.wfLog(stmt) && task != nil && node != nil && (node.Name in stmt.ssn.ClusterInfo.Nodes ==> (forall k in stmt.ssn.ClusterInfo.Nodes[node.Name].PodInfos :: stmt.ssn.ClusterInfo.Nodes[node.Name].PodInfos[k] != nil))
+// the log got exactly one new entry and it is an allocate (bind) entry / a pipeline (nominate) entry
+//@ define boundNow(stmt *framework.Statement) bool = framework.appendedOne(stmt) && framework.isAllocateOp(framework.lastOp(stmt))
+//@ define nominatedNow(stmt *framework.Statement) bool = framework.appendedOne(stmt) && framework.isPipelineOp(framework.lastOp(stmt))
+//@ define logKept(stmt *framework.Statement) bool = len(stmt.operations) >= old(len(stmt.operations)) && (forall j int :: 0 <= j && j < old(len(stmt.operations)) ==> stmt.operations[j] == old(stmt.operations[j]))
+
+// The only place of the allocate path that issues a real bind (stmt.Allocate). Its precondition IS the
+// property: it is proved at every call site ("bind only what fits Idle").
+//@ func bindTaskToNode
+//@   props C01
+//@   requires placeReady(ssn, stmt, task, node)
+//@   requires fitsIdle(node, task)
+//@   modifies *
+//@   ensures [boundOnSuccess] result ==> boundNow(stmt) && task.Status == pod_status.Allocated && task.NodeName == old(node.Name)
+//@   ensures [failureKeepsLog] !result ==> stmt.operations == old(stmt.operations)
+//@ end
+
+//@ func pipelineTaskToNode
+//@   props C01
+//@   requires placeReady(ssn, stmt, task, node)
+//@   modifies *
+//@   ensures [logKept] logKept(stmt)
+//@   ensures [nominatedOnSuccess] updateTasksIfExistsOnNode && result ==> nominatedNow(stmt) && task.NodeName == old(node.Name)
+//@ end
+
+// STUB (weakest possible: anything may change, nothing is promised) so that the fractional branch is a call
+// and not an inlined body; to be replaced by the gpu_sharing helper's own contract.
+//@ func github.com/NVIDIA/KAI-scheduler/pkg/scheduler/gpu_sharing.AllocateFractionalGPUTaskToNode
+//@   modifies *
+//@   note stub in actions/common: the fractional decision (C02/C01) is under contract in gpu_sharing; here only "may change anything"
+//@ end
+
+//@ func allocateTaskToNode
+//@   props C01
+//@   requires placeReady(ssn, stmt, task, node)
+//@   requires node_info.nodeReadable(node) && node_info.taskReadable(task)
+//@   modifies *
+//@   # C01 "IsTaskAllocatable (fits Idle) decides bind vs pipeline": a bind entry appears only if the request fitted Idle at entry
+//@   ensures [bindOnlyIfFitsIdle] !old(sharedReq(task)) && !isPipelineOnly && result && boundNow(stmt) ==> old(fitsIdle(node, task))
+//@   ensures [decisionIsIsTaskAllocatable] !old(sharedReq(task)) && !isPipelineOnly && result ==> (boundNow(stmt) <==> old(node.IsTaskAllocatable(task)))
+//@   ensures [elseNominated] !old(sharedReq(task)) && !isPipelineOnly && result && !old(node.IsTaskAllocatable(task)) ==> nominatedNow(stmt)
+//@   ensures [lenGrows] !old(sharedReq(task)) ==> len(stmt.operations) >= old(len(stmt.operations))
+//@ end
